@@ -212,6 +212,63 @@ Theorem c17_event_mark_iff :
 Proof. exact do_event_mark. Qed.
 Print Assumptions c17_event_mark_iff.
 
+(* ---- per-mask do_if and metric labels (sub-model which = 2) ----------------------------------------- *)
+(* pipeline/doif is an oracle (C14): [bits] are DoIfChecker.Check's answers for one event, one per mask.
+   A mask whose answer is "no" is applied to no value of that event: it rewrites nothing, sets no
+   applied_field, counts nothing *)
+Theorem c17_doif_off_never_fires :
+  forall masks bits fl oracle fm s out upd fired j,
+    nth_error bits j = Some false ->
+    process_mask (gate_all masks bits) fl oracle fm s = Ok (out, upd, fired) -> ~ In j fired.
+Proof. exact gated_off_never_fires. Qed.
+Print Assumptions c17_doif_off_never_fires.
+
+(* a mask whose answer is "yes" (or that has no do_if) is the compiled mask itself, so everything above
+   (c17_applied_iff, c17_leaf_single_mask, ...) speaks about it; all answers "yes" = the plain mask list *)
+Theorem c17_doif_on_is_mask :
+  forall ks bits, 
+    (forall j k, nth_error ks j = Some k -> nth_error bits j <> Some false -> nth_error (gate_all ks bits) j = Some k) /\
+    ((forall b, In b bits -> b = true) -> gate_all ks bits = ks).
+Proof. exact (fun ks bits => conj (gate_all_nth_used ks bits) (gate_all_used ks bits)). Qed.
+Print Assumptions c17_doif_on_is_mask.
+
+(* the extended run without do_if answers and labels yields the events of the plain run *)
+Theorem c17_ext_conservative :
+  forall inh cfg oracle evs,
+    res_map fst (run_plugin_ext inh cfg oracle [] (map (fun _ => mext0) (c_masks cfg)) (map (fun e => (e, [])) evs)) =
+    res_map (fun x => fst (fst x)) (run_plugin inh cfg oracle evs).
+Proof. exact run_plugin_ext_plain. Qed.
+Print Assumptions c17_ext_conservative.
+
+Theorem c17_ext_total :
+  forall inh cfg oracle pl xs evs,
+    (forall i b, is_panic (oracle i b) = false) -> is_panic (run_plugin_ext inh cfg oracle pl xs evs) = false.
+Proof. exact run_plugin_ext_total. Qed.
+Print Assumptions c17_ext_total.
+
+(* the frame holds whatever the do_if answers and the labels are (labels are only read) *)
+Theorem c17_ext_frame :
+  forall inh cfg oracle pl xs evs evs' ms,
+    run_plugin_ext inh cfg oracle pl xs evs = Ok (evs', ms) ->
+    exists ks, compile_masks (c_masks cfg) = Ok ks /\ Forall2 (event_frame (mark_names ks cfg)) (map fst evs) evs'.
+Proof. exact run_plugin_ext_frame. Qed.
+Print Assumptions c17_ext_frame.
+
+(* the counters of one event: the plugin's is touched exactly when some mask fired (by 1, with the label
+   values read from the event as Do leaves it: after masking and the marks); mask n's exactly when it fired,
+   has a metric name and that name is not the plugin's, by the number of values it fired on *)
+Theorem c17_metrics_iff_fired :
+  forall ks cfg pl xs root fired,
+    exists pm rest, event_metrics ks cfg pl xs root fired = pm :: rest /\
+      (pm = None <-> fired = [] \/ c_metric cfg = false) /\
+      (pm <> None -> pm = Some (1, map (label_val root) pl)) /\
+      forall n m, nth_error rest n = Some m ->
+        exists k, nth_error ks n = Some k /\
+          (m = None <-> ~ (k_metric k = true /\ x_clash (nth n xs mext0) = false /\ In n fired)) /\
+          (m <> None -> m = Some (count_fired fired n, map (label_val root) (x_labels (nth n xs mext0)))).
+Proof. exact event_metrics_spec. Qed.
+Print Assumptions c17_metrics_iff_fired.
+
 (* ---- non-vacuity ------------------------------------------------------------------------------------ *)
 (* a(b)? with group 1 on "ab a" (second match: the group did not take part), asterisks;
    (a(b)) with groups [2,1] (out of order, nested) on "xaby", replace word "X" *)
@@ -237,3 +294,17 @@ Proof.
   split; [|vm_compute; reflexivity].
   intros e1 e2 [<-|[]] [<-|[]] [_ H]. cbn in H. lia.
 Qed.
+
+(* do_if and labels: mask (s) with metric label "b", plugin label "b"; event 1 is gated off (do_if said no):
+   untouched, no counter; event 2: {"b":"st"} -> {"b":"*t"}, both counters carry the MASKED label value *)
+Example c17_ext_nonvacuous :
+  let cfg := {| c_masks := [{| m_re := true; m_nsub := 1; m_groups := [1]; m_mode := MMask 0; m_rules := [];
+                               m_afield := []; m_avalue := []; m_metric := true; m_ign := []; m_proc := [] |}];
+                c_afield := []; c_avalue := []; c_metric := true; c_ign := []; c_proc := [] |} in
+  let ev := JObj [([98%N], JStr [115; 116]%N)] in
+  run_plugin_ext false cfg (lookup c17_ov_table) [[98%N]] [{| x_labels := [[98%N]]; x_clash := false |}]
+    [(ev, [false]); (ev, [true])]
+  = Ok ([ev; JObj [([98%N], JStr [42; 116]%N)]],
+        [[None; None]; [Some (1, [[42; 116]%N]); Some (1, [[42; 116]%N])]]).
+Proof. vm_compute. reflexivity. Qed.
+
